@@ -36,7 +36,8 @@ TNest  == HasLine("N") /\ pc[L.s] = "run" /\ nwait = 0 /\ nwait' = L.s /\ UNCHAN
 TNestPut == /\ nwait # 0 /\ Nested(nwait) /\ nwait' = 0 /\ sil' = sil /\ UNCHANGED <<tid, l>>
 TNestRet == HasLine("NR") /\ nwait = 0 /\ UNCHANGED dvars /\ Consume /\ Keep
 TEnd   == HasLine("E") /\ nwait = 0 /\ (IF L.raised THEN Fail(L.s) ELSE End(L.s)) /\ cur[L.s] = LEv /\ Consume /\ Keep
-TRet   == HasLine("ret") /\ Ret(L.s) /\ exc[L.s] = L.exc /\ Consume /\ Keep
+\* only the callback's own exception may come out of a send
+TRet   == HasLine("ret") /\ Ret(L.s) /\ exc[L.s] = L.exc /\ "other" \notin DOMAIN L /\ Consume /\ Keep
 \* the end of the execution: every sender is back and the machine changed state once per
 \* event processed to its end
 TFinish == /\ HasLine("end") /\ AllReturned /\ Cardinality(done) = L.moves
